@@ -21,8 +21,9 @@
 -/
 import CV.Props.C01
 set_option linter.unusedSimpArgs false
+set_option linter.constructorNameAsVariable false
 namespace CV.C15
-open CV CV.GenFlat CV.GenStruct CV.C01
+open CV CV.GenFlat CV.GenReg CV.GenStruct CV.C01
 
 theorem comm_law (L : Layout) (m : Mem) (v : String) (op : BOp) (a b : Atom) (h : op.commutes = true) :
     spec L m (.bin v op a b) = spec L m (.bin v op b a) := by
@@ -72,23 +73,23 @@ example : genText (.bin "c" .add (.var "a") (.var "b")) ≠ genText (.bin "c" .a
 /-! ## stage 2: laws of structured statements and their compiled counterparts -/
 
 /-- the source meaning as a relation: some amount of fuel suffices -/
-def Sem (L : Layout) (m : Mem) (st : SStmt) (m' : Mem) : Prop := ∃ f, sem L f m st = some m'
+def Sem (L : Layout) (m : SrcSt) (st : SStmt) (m' : SrcSt) : Prop := ∃ f, sem L f m st = some m'
 
-theorem sem_flat (L : Layout) (f : Nat) (m : Mem) (s : FStmt) : sem L (f + 1) m (.flat s) = some (spec L m s) := rfl
-theorem sem_seq (L : Layout) (f : Nat) (m : Mem) (a b : SStmt) :
+theorem sem_flat (L : Layout) (f : Nat) (m : SrcSt) (s : RStmt) : sem L (f + 1) m (.flat s) = some (rspec L m s) := rfl
+theorem sem_seq (L : Layout) (f : Nat) (m : SrcSt) (a b : SStmt) :
     sem L (f + 1) m (.seq a b) = (sem L f m a).bind fun m1 => sem L f m1 b := rfl
-theorem sem_ifThen (L : Layout) (f : Nat) (m : Mem) (c : Cond) (t : SStmt) :
+theorem sem_ifThen (L : Layout) (f : Nat) (m : SrcSt) (c : Cond) (t : SStmt) :
     sem L (f + 1) m (.ifThen c t) = if evalCond L m c then sem L f m t else some m := rfl
-theorem sem_while (L : Layout) (f : Nat) (m : Mem) (c : Cond) (b : SStmt) :
+theorem sem_while (L : Layout) (f : Nat) (m : SrcSt) (c : Cond) (b : SStmt) :
     sem L (f + 1) m (.while c b) =
       if evalCond L m c then (sem L f m b).bind fun m1 => sem L f m1 (.while c b) else some m := rfl
-theorem sem_doWhile (L : Layout) (f : Nat) (m : Mem) (c : Cond) (b : SStmt) :
+theorem sem_doWhile (L : Layout) (f : Nat) (m : SrcSt) (c : Cond) (b : SStmt) :
     sem L (f + 1) m (.doWhile b c) =
       (sem L f m b).bind fun m1 => if evalCond L m1 c then sem L f m1 (.doWhile b c) else some m1 := rfl
-theorem sem_for (L : Layout) (f : Nat) (m : Mem) (i u : FStmt) (c : Cond) (b : SStmt) :
-    sem L (f + 1) m (.for i c u b) = sem L f (spec L m i) (.while c (.seq b (.flat u))) := rfl
+theorem sem_for (L : Layout) (f : Nat) (m : SrcSt) (i u : RStmt) (c : Cond) (b : SStmt) :
+    sem L (f + 1) m (.for i c u b) = sem L f (rspec L m i) (.while c (.seq b (.flat u))) := rfl
 
-theorem sem_mono (L : Layout) : ∀ (f : Nat) (m : Mem) (st : SStmt) (m' : Mem),
+theorem sem_mono (L : Layout) : ∀ (f : Nat) (m : SrcSt) (st : SStmt) (m' : SrcSt),
     sem L f m st = some m' → sem L (f + 1) m st = some m' := by
   intro f
   induction f with
@@ -141,14 +142,14 @@ theorem sem_mono (L : Layout) : ∀ (f : Nat) (m : Mem) (st : SStmt) (m' : Mem),
       simp only [sem] at h ⊢
       exact ih _ _ _ h
 
-theorem sem_mono_add (L : Layout) (f k : Nat) (m : Mem) (st : SStmt) (m' : Mem)
+theorem sem_mono_add (L : Layout) (f k : Nat) (m : SrcSt) (st : SStmt) (m' : SrcSt)
     (h : sem L f m st = some m') : sem L (f + k) m st = some m' := by
   induction k with
   | zero => exact h
   | succ k ih => exact sem_mono L _ _ _ _ ih
 
 /-- the source meaning is a partial function -/
-theorem Sem.det {L : Layout} {m : Mem} {st : SStmt} {m1 m2 : Mem} (h1 : Sem L m st m1) (h2 : Sem L m st m2) : m1 = m2 := by
+theorem Sem.det {L : Layout} {m : SrcSt} {st : SStmt} {m1 m2 : SrcSt} (h1 : Sem L m st m1) (h2 : Sem L m st m2) : m1 = m2 := by
   obtain ⟨f1, e1⟩ := h1
   obtain ⟨f2, e2⟩ := h2
   have a := sem_mono_add L f1 f2 m st m1 e1
@@ -161,16 +162,16 @@ theorem Sem.det {L : Layout} {m : Mem} {st : SStmt} {m1 m2 : Mem} (h1 : Sem L m 
     machine state: both runs end, in the same memory, with X, Y, SP as they were -/
 theorem same_meaning_same_behaviour (L : Layout) (st₁ st₂ : SStmt)
     (h₁ : SInFragment st₁ = true) (h₂ : SInFragment st₂ = true)
-    (s : Cpu) (m' : Mem) (hs₁ : Sem L s.mem st₁ m') (hs₂ : Sem L s.mem st₂ m') :
+    (s : Cpu) (m' : SrcSt) (hs₁ : Sem L (srcOf s) st₁ m') (hs₂ : Sem L (srcOf s) st₂ m') :
     ∃ s₁ s₂ n₁ n₂,
       runG L (gen {} st₁).1 (gen {} st₁).1.length n₁ 0 s = some s₁ ∧
       runG L (gen {} st₂).1 (gen {} st₂).1.length n₂ 0 s = some s₂ ∧
-      s₁.mem = s₂.mem ∧ s₁.x = s₂.x ∧ s₁.y = s₂.y ∧ s₁.sp = s₂.sp := by
+      srcOf s₁ = srcOf s₂ ∧ s₁.sp = s₂.sp := by
   obtain ⟨f1, e1⟩ := hs₁
   obtain ⟨f2, e2⟩ := hs₂
-  obtain ⟨s1, n1, r1, m1, x1, y1, p1⟩ := struct_program_correct L st₁ f1 s.mem m' e1 h₁ s rfl
-  obtain ⟨s2, n2, r2, m2, x2, y2, p2⟩ := struct_program_correct L st₂ f2 s.mem m' e2 h₂ s rfl
-  exact ⟨s1, s2, n1, n2, r1, r2, by rw [m1, m2], by rw [x1, x2], by rw [y1, y2], by rw [p1, p2]⟩
+  obtain ⟨s1, n1, r1, m1, p1⟩ := struct_program_correct L st₁ f1 (srcOf s) m' e1 h₁ s rfl
+  obtain ⟨s2, n2, r2, m2, p2⟩ := struct_program_correct L st₂ f2 (srcOf s) m' e2 h₂ s rfl
+  exact ⟨s1, s2, n1, n2, r1, r2, by rw [m1, m2], by rw [p1, p2]⟩
 
 /-! ### the laws -/
 
@@ -191,7 +192,7 @@ def Cond.swap : Cond → Cond
   | .not c => .not (Cond.swap c)
   | c => c
 
-theorem evalCond_neg (L : Layout) (m : Mem) (c : Cond) : evalCond L m (Cond.neg c) = !evalCond L m c := by
+theorem evalCond_neg (L : Layout) (m : SrcSt) (c : Cond) : evalCond L m (Cond.neg c) = !evalCond L m c := by
   induction c with
   | cmp op a b => simp [Cond.neg, evalCond, negate_means_not]
   | truth v => simp [Cond.neg, evalCond, bne]
@@ -200,7 +201,7 @@ theorem evalCond_neg (L : Layout) (m : Mem) (c : Cond) : evalCond L m (Cond.neg 
   | or a b iha ihb => simp [Cond.neg, evalCond, iha, ihb]
   | not c ih => simp [Cond.neg, evalCond]
 
-theorem evalCond_swap (L : Layout) (m : Mem) (c : Cond) : evalCond L m (Cond.swap c) = evalCond L m c := by
+theorem evalCond_swap (L : Layout) (m : SrcSt) (c : Cond) : evalCond L m (Cond.swap c) = evalCond L m c := by
   induction c with
   | cmp op a b => simp [Cond.swap, evalCond, mirror_means_swap]
   | truth v => rfl
@@ -210,20 +211,20 @@ theorem evalCond_swap (L : Layout) (m : Mem) (c : Cond) : evalCond L m (Cond.swa
   | not c ih => simp [Cond.swap, evalCond, ih]
 
 /-- De Morgan at the source level: `!(a && b)` ≡ `!a || !b`, `!(a || b)` ≡ `!a && !b` -/
-theorem de_morgan_law (L : Layout) (m : Mem) (a b : Cond) :
+theorem de_morgan_law (L : Layout) (m : SrcSt) (a b : Cond) :
     evalCond L m (.not (.and a b)) = evalCond L m (.or (.not a) (.not b)) ∧
     evalCond L m (.not (.or a b)) = evalCond L m (.and (.not a) (.not b)) := by
   simp [evalCond]
 
 /-- `if (c) A else B` ≡ `if (!c) B else A` -/
-theorem if_else_swap_law (L : Layout) (f : Nat) (m : Mem) (c : Cond) (t e : SStmt) :
+theorem if_else_swap_law (L : Layout) (f : Nat) (m : SrcSt) (c : Cond) (t e : SStmt) :
     sem L f m (.ifElse c t e) = sem L f m (.ifElse (Cond.neg c) e t) := by
   cases f with
   | zero => rfl
   | succ f => simp only [sem, evalCond_neg]; cases evalCond L m c <;> simp
 
 /-- the same with the `!` operator itself: `if (c) A else B` ≡ `if (!(c)) B else A` -/
-theorem if_else_not_law (L : Layout) (f : Nat) (m : Mem) (c : Cond) (t e : SStmt) :
+theorem if_else_not_law (L : Layout) (f : Nat) (m : SrcSt) (c : Cond) (t e : SStmt) :
     sem L f m (.ifElse c t e) = sem L f m (.ifElse (.not c) e t) := by
   cases f with
   | zero => rfl
@@ -233,7 +234,7 @@ theorem if_else_not_law (L : Layout) (f : Nat) (m : Mem) (c : Cond) (t e : SStmt
 
 /-- replacing a loop / branch condition by one with the same truth value everywhere -/
 theorem cond_congr (L : Layout) (c c' : Cond) (hc : ∀ m, evalCond L m c = evalCond L m c') :
-    ∀ (f : Nat) (m : Mem),
+    ∀ (f : Nat) (m : SrcSt),
       (∀ t, sem L f m (.ifThen c t) = sem L f m (.ifThen c' t)) ∧
       (∀ t e, sem L f m (.ifElse c t e) = sem L f m (.ifElse c' t e)) ∧
       (∀ b, sem L f m (.while c b) = sem L f m (.while c' b)) ∧
@@ -264,7 +265,7 @@ theorem cond_congr (L : Layout) (c c' : Cond) (hc : ∀ m, evalCond L m c = eval
       exact (ih _).2.2.1 _
 
 /-- `a < b` ≡ `b > a` (and the other five operators) wherever a condition stands -/
-theorem compare_swap_law (L : Layout) (c : Cond) (f : Nat) (m : Mem) :
+theorem compare_swap_law (L : Layout) (c : Cond) (f : Nat) (m : SrcSt) :
     (∀ t, sem L f m (.ifThen c t) = sem L f m (.ifThen (Cond.swap c) t)) ∧
     (∀ t e, sem L f m (.ifElse c t e) = sem L f m (.ifElse (Cond.swap c) t e)) ∧
     (∀ b, sem L f m (.while c b) = sem L f m (.while (Cond.swap c) b)) ∧
@@ -273,7 +274,7 @@ theorem compare_swap_law (L : Layout) (c : Cond) (f : Nat) (m : Mem) :
   cond_congr L c (Cond.swap c) (fun m => (evalCond_swap L m c).symm) f m
 
 /-- `for (i; c; u) S` ≡ `i; while (c) { S; u; }` -/
-theorem for_while_law (L : Layout) (m m' : Mem) (i u : FStmt) (c : Cond) (b : SStmt) :
+theorem for_while_law (L : Layout) (m m' : SrcSt) (i u : RStmt) (c : Cond) (b : SStmt) :
     Sem L m (.for i c u b) m' ↔ Sem L m (.seq (.flat i) (.while c (.seq b (.flat u)))) m' := by
   constructor
   · rintro ⟨f, h⟩
@@ -297,7 +298,7 @@ theorem for_while_law (L : Layout) (m m' : Mem) (i u : FStmt) (c : Cond) (b : SS
         exact ⟨f + 2, by rw [sem_for]; exact h⟩
 
 /-- `while (c) S` ≡ `if (c) do S while (c);` -/
-theorem while_dowhile_law (L : Layout) (c : Cond) (b : SStmt) : ∀ (m m' : Mem),
+theorem while_dowhile_law (L : Layout) (c : Cond) (b : SStmt) : ∀ (m m' : SrcSt),
     Sem L m (.while c b) m' ↔ Sem L m (.ifThen c (.doWhile b c)) m' := by
   have fwd : ∀ f m m', sem L f m (.while c b) = some m' → Sem L m (.ifThen c (.doWhile b c)) m' := by
     intro f
@@ -375,72 +376,72 @@ theorem while_dowhile_law (L : Layout) (c : Cond) (b : SStmt) : ∀ (m m' : Mem)
 /-- two spellings related by a law (same meaning from this memory) behave identically when compiled -/
 theorem compiled_equiv_struct (L : Layout) (st₁ st₂ : SStmt)
     (h₁ : SInFragment st₁ = true) (h₂ : SInFragment st₂ = true) (s : Cpu)
-    (hlaw : ∀ m', Sem L s.mem st₁ m' ↔ Sem L s.mem st₂ m') (m' : Mem) (hterm : Sem L s.mem st₁ m') :
+    (hlaw : ∀ m', Sem L (srcOf s) st₁ m' ↔ Sem L (srcOf s) st₂ m') (m' : SrcSt) (hterm : Sem L (srcOf s) st₁ m') :
     ∃ s₁ s₂ n₁ n₂,
       runG L (gen {} st₁).1 (gen {} st₁).1.length n₁ 0 s = some s₁ ∧
       runG L (gen {} st₂).1 (gen {} st₂).1.length n₂ 0 s = some s₂ ∧
-      s₁.mem = s₂.mem ∧ s₁.x = s₂.x ∧ s₁.y = s₂.y ∧ s₁.sp = s₂.sp :=
+      srcOf s₁ = srcOf s₂ ∧ s₁.sp = s₂.sp :=
   same_meaning_same_behaviour L st₁ st₂ h₁ h₂ s m' hterm ((hlaw m').mp hterm)
 
 theorem compiled_if_else_swap (L : Layout) (c : Cond) (t e : SStmt)
     (h₁ : SInFragment (.ifElse c t e) = true) (h₂ : SInFragment (.ifElse (Cond.neg c) e t) = true)
-    (s : Cpu) (m' : Mem) (hterm : Sem L s.mem (.ifElse c t e) m') :
+    (s : Cpu) (m' : SrcSt) (hterm : Sem L (srcOf s) (.ifElse c t e) m') :
     ∃ s₁ s₂ n₁ n₂,
       runG L (gen {} (.ifElse c t e)).1 (gen {} (.ifElse c t e)).1.length n₁ 0 s = some s₁ ∧
       runG L (gen {} (.ifElse (Cond.neg c) e t)).1 (gen {} (.ifElse (Cond.neg c) e t)).1.length n₂ 0 s = some s₂ ∧
-      s₁.mem = s₂.mem ∧ s₁.x = s₂.x ∧ s₁.y = s₂.y ∧ s₁.sp = s₂.sp :=
+      srcOf s₁ = srcOf s₂ ∧ s₁.sp = s₂.sp :=
   compiled_equiv_struct L _ _ h₁ h₂ s
     (fun m' => ⟨fun ⟨f, h⟩ => ⟨f, by rw [← if_else_swap_law]; exact h⟩, fun ⟨f, h⟩ => ⟨f, by rw [if_else_swap_law]; exact h⟩⟩) m' hterm
 
-theorem compiled_for_while (L : Layout) (i u : FStmt) (c : Cond) (b : SStmt)
+theorem compiled_for_while (L : Layout) (i u : RStmt) (c : Cond) (b : SStmt)
     (h₁ : SInFragment (.for i c u b) = true) (h₂ : SInFragment (.seq (.flat i) (.while c (.seq b (.flat u)))) = true)
-    (s : Cpu) (m' : Mem) (hterm : Sem L s.mem (.for i c u b) m') :
+    (s : Cpu) (m' : SrcSt) (hterm : Sem L (srcOf s) (.for i c u b) m') :
     ∃ s₁ s₂ n₁ n₂,
       runG L (gen {} (.for i c u b)).1 (gen {} (.for i c u b)).1.length n₁ 0 s = some s₁ ∧
       runG L (gen {} (.seq (.flat i) (.while c (.seq b (.flat u))))).1
         (gen {} (.seq (.flat i) (.while c (.seq b (.flat u))))).1.length n₂ 0 s = some s₂ ∧
-      s₁.mem = s₂.mem ∧ s₁.x = s₂.x ∧ s₁.y = s₂.y ∧ s₁.sp = s₂.sp :=
-  compiled_equiv_struct L _ _ h₁ h₂ s (fun m' => for_while_law L s.mem m' i u c b) m' hterm
+      srcOf s₁ = srcOf s₂ ∧ s₁.sp = s₂.sp :=
+  compiled_equiv_struct L _ _ h₁ h₂ s (fun m' => for_while_law L (srcOf s) m' i u c b) m' hterm
 
 theorem compiled_while_dowhile (L : Layout) (c : Cond) (b : SStmt)
     (h₁ : SInFragment (.while c b) = true) (h₂ : SInFragment (.ifThen c (.doWhile b c)) = true)
-    (s : Cpu) (m' : Mem) (hterm : Sem L s.mem (.while c b) m') :
+    (s : Cpu) (m' : SrcSt) (hterm : Sem L (srcOf s) (.while c b) m') :
     ∃ s₁ s₂ n₁ n₂,
       runG L (gen {} (.while c b)).1 (gen {} (.while c b)).1.length n₁ 0 s = some s₁ ∧
       runG L (gen {} (.ifThen c (.doWhile b c))).1 (gen {} (.ifThen c (.doWhile b c))).1.length n₂ 0 s = some s₂ ∧
-      s₁.mem = s₂.mem ∧ s₁.x = s₂.x ∧ s₁.y = s₂.y ∧ s₁.sp = s₂.sp :=
-  compiled_equiv_struct L _ _ h₁ h₂ s (fun m' => while_dowhile_law L c b s.mem m') m' hterm
+      srcOf s₁ = srcOf s₂ ∧ s₁.sp = s₂.sp :=
+  compiled_equiv_struct L _ _ h₁ h₂ s (fun m' => while_dowhile_law L c b (srcOf s) m') m' hterm
 
 theorem compiled_compare_swap_if (L : Layout) (c : Cond) (t e : SStmt)
     (h₁ : SInFragment (.ifElse c t e) = true) (h₂ : SInFragment (.ifElse (Cond.swap c) t e) = true)
-    (s : Cpu) (m' : Mem) (hterm : Sem L s.mem (.ifElse c t e) m') :
+    (s : Cpu) (m' : SrcSt) (hterm : Sem L (srcOf s) (.ifElse c t e) m') :
     ∃ s₁ s₂ n₁ n₂,
       runG L (gen {} (.ifElse c t e)).1 (gen {} (.ifElse c t e)).1.length n₁ 0 s = some s₁ ∧
       runG L (gen {} (.ifElse (Cond.swap c) t e)).1 (gen {} (.ifElse (Cond.swap c) t e)).1.length n₂ 0 s = some s₂ ∧
-      s₁.mem = s₂.mem ∧ s₁.x = s₂.x ∧ s₁.y = s₂.y ∧ s₁.sp = s₂.sp :=
+      srcOf s₁ = srcOf s₂ ∧ s₁.sp = s₂.sp :=
   compiled_equiv_struct L _ _ h₁ h₂ s
-    (fun m' => ⟨fun ⟨f, h⟩ => ⟨f, by rw [← (compare_swap_law L c f s.mem).2.1]; exact h⟩,
-                fun ⟨f, h⟩ => ⟨f, by rw [(compare_swap_law L c f s.mem).2.1]; exact h⟩⟩) m' hterm
+    (fun m' => ⟨fun ⟨f, h⟩ => ⟨f, by rw [← (compare_swap_law L c f (srcOf s)).2.1]; exact h⟩,
+                fun ⟨f, h⟩ => ⟨f, by rw [(compare_swap_law L c f (srcOf s)).2.1]; exact h⟩⟩) m' hterm
 
 theorem compiled_compare_swap_while (L : Layout) (c : Cond) (b : SStmt)
     (h₁ : SInFragment (.while c b) = true) (h₂ : SInFragment (.while (Cond.swap c) b) = true)
-    (s : Cpu) (m' : Mem) (hterm : Sem L s.mem (.while c b) m') :
+    (s : Cpu) (m' : SrcSt) (hterm : Sem L (srcOf s) (.while c b) m') :
     ∃ s₁ s₂ n₁ n₂,
       runG L (gen {} (.while c b)).1 (gen {} (.while c b)).1.length n₁ 0 s = some s₁ ∧
       runG L (gen {} (.while (Cond.swap c) b)).1 (gen {} (.while (Cond.swap c) b)).1.length n₂ 0 s = some s₂ ∧
-      s₁.mem = s₂.mem ∧ s₁.x = s₂.x ∧ s₁.y = s₂.y ∧ s₁.sp = s₂.sp :=
+      srcOf s₁ = srcOf s₂ ∧ s₁.sp = s₂.sp :=
   compiled_equiv_struct L _ _ h₁ h₂ s
-    (fun m' => ⟨fun ⟨f, h⟩ => ⟨f, by rw [← (compare_swap_law L c f s.mem).2.2.1]; exact h⟩,
-                fun ⟨f, h⟩ => ⟨f, by rw [(compare_swap_law L c f s.mem).2.2.1]; exact h⟩⟩) m' hterm
+    (fun m' => ⟨fun ⟨f, h⟩ => ⟨f, by rw [← (compare_swap_law L c f (srcOf s)).2.2.1]; exact h⟩,
+                fun ⟨f, h⟩ => ⟨f, by rw [(compare_swap_law L c f (srcOf s)).2.2.1]; exact h⟩⟩) m' hterm
 
 /-! non-vacuity: the spellings are different code, and both are in the fragment -/
-def demoC : Cond := .cmp .lt (.var "a") (.var "b")
-example : (gen {} (.ifElse demoC (.flat (.inc "c")) (.flat (.dec "c")))).1
-    ≠ (gen {} (.ifElse (Cond.neg demoC) (.flat (.dec "c")) (.flat (.inc "c")))).1 := by decide
-example : (gen {} (.while demoC (.flat (.inc "a")))).1 ≠ (gen {} (.while (Cond.swap demoC) (.flat (.inc "a")))).1 := by decide
-example : (gen {} (.for (.asg "a" (.const 0)) demoC (.inc "a") (.flat (.inc "c")))).1
-    ≠ (gen {} (.seq (.flat (.asg "a" (.const 0))) (.while demoC (.seq (.flat (.inc "c")) (.flat (.inc "a")))))).1 := by decide
-example : SInFragment (.ifElse (Cond.neg demoC) (.flat (.dec "c")) (.flat (.inc "c"))) = true := by decide
-example : SInFragment (.while (Cond.swap demoC) (.flat (.inc "a"))) = true := by decide
+def demoC : Cond := .cmp .lt (.of (.var "a")) (.of (.var "b"))
+example : (gen {} (.ifElse demoC (.flat (.inc (.var "c"))) (.flat (.dec (.var "c"))))).1
+    ≠ (gen {} (.ifElse (Cond.neg demoC) (.flat (.dec (.var "c"))) (.flat (.inc (.var "c"))))).1 := by decide
+example : (gen {} (.while demoC (.flat (.inc (.var "a"))))).1 ≠ (gen {} (.while (Cond.swap demoC) (.flat (.inc (.var "a"))))).1 := by decide
+example : (gen {} (.for (.asg (.var "a") (.of (.const 0))) demoC (.inc (.var "a")) (.flat (.inc (.var "c"))))).1
+    ≠ (gen {} (.seq (.flat (.asg (.var "a") (.of (.const 0)))) (.while demoC (.seq (.flat (.inc (.var "c"))) (.flat (.inc (.var "a"))))))).1 := by decide
+example : SInFragment (.ifElse (Cond.neg demoC) (.flat (.dec (.var "c"))) (.flat (.inc (.var "c")))) = true := by decide
+example : SInFragment (.while (Cond.swap demoC) (.flat (.inc (.var "a")))) = true := by decide
 
 end CV.C15
